@@ -6,7 +6,7 @@ import vlib
 from vlib import Violation, qc, qc_mat, qc_vec, coq_list
 
 ID = "C08"
-GEN_UNITS = ["Euler", "Hmm", "Quat"]
+GEN_UNITS = ["Euler", "Hmm", "Quat", "LinParams"]
 PROPS_FILE = "Props/C08.v"
 PROPS_MOD = "Props.C08"
 COQ_TARGETS = ["Props/C08.vo"]
